@@ -821,7 +821,7 @@ def make_jobs(tier, seed, build):
     # adjacent argument / aliases: differential against the reference semantics
     for gname in ("j1", "g3"):
         g = CORPUS[gname]
-        for shape in tok.all_shapes_by_words(3 if tier == "quick" else 4, g.decl):
+        for shape in tok.all_shapes_by_words(3 if tier == "quick" else 4, g.decl, full_upto=3):
             jobs.append({"id": "adj:%s:%s" % (gname, ",".join(shape)), "kind": "adj", "grammar": gname, "shape": shape, "fs": "none"})
     return jobs
 
